@@ -1,8 +1,15 @@
 //! vcheck <ID> quick|thorough | vcheck <ID> --replay <file>
 mod c01;
 mod c02;
+mod c03;
+mod c04;
+mod c05;
+mod c06;
 mod c08;
+mod c11;
+mod c12;
 mod c13;
+mod c16;
 
 use serde_json::Value;
 
@@ -30,6 +37,14 @@ fn main() {
         "C07" => c01::run_c07(tier),
         "C02" => c02::run(tier),
         "C08" => c08::run(tier),
+        "C12" => c12::run(tier),
+        "C06" => c06::run(tier, c06::Prop::C06),
+        "C17" => c06::run(tier, c06::Prop::C17),
+        "C05" => c05::run(tier),
+        "C16" => c16::run(tier),
+        "C11" => c11::run(tier),
+        "C03" => c03::run(tier),
+        "C04" => c04::run(tier),
         "C13" => c13::run_c13(tier),
         "C14" => c13::run_c14(tier),
         _ => {
@@ -48,6 +63,13 @@ fn replay(id: &str, v: &Value) -> i32 {
             "C01" | "C07" => c01::replay(case),
             "C02" => c02::replay(case),
             "C08" => c08::replay(case),
+            "C12" => c12::replay(case),
+            "C06" | "C17" => c06::replay(case),
+            "C05" => c05::replay(case),
+            "C16" => c16::replay(case),
+            "C11" => c11::replay(case),
+            "C03" => c03::replay(case),
+            "C04" => c04::replay(case),
             _ => serde_json::json!({"error": format!("no replay engine for {} / {}", id, sub)}),
         }
     };
